@@ -9,6 +9,8 @@
 #include <ygm/io/csv_parser.hpp>
 #include <ygm/io/ndjson_parser.hpp>
 #include <set>
+#include <filesystem>
+#include <sys/resource.h>
 #include <ygm/io/multi_output.hpp>
 #include <ygm/io/daily_output.hpp>
 #include <cstdio>
@@ -70,6 +72,15 @@ int main(int argc, char **argv) {
       std::getline(ss, text);
       if (!text.empty() && text[0] == ' ') text.erase(0, 1);
       if (kw == "w" || kw == "d") ops.push_back({r, sub, text});
+    }
+    if (argc > 6) {
+      // lower the open-file limit of this process to <files open now> + argv[6]
+      int open_now = 0;
+      for (auto &e : std::filesystem::directory_iterator("/proc/self/fd")) { (void)e; ++open_now; }
+      struct rlimit rl;
+      getrlimit(RLIMIT_NOFILE, &rl);
+      rl.rlim_cur = open_now + atoi(argv[6]);
+      setrlimit(RLIMIT_NOFILE, &rl);
     }
     if (mode == "multi") {
       ygm::io::multi_output<> mo(world, prefix, buflen, append);
